@@ -402,3 +402,9 @@ def run(ctx):
     events, raws = record_all(ctx, items, worlds)
     mult = validate(ctx, events, raws, worlds)
     replay_mult(ctx, mult, raws, events)
+    ctx.extra["actions"] = ("linear machines (MLoad/MJudge, TLoad/TJudge, CharTable Load/Judge, DegSets Run): every behaviour passes through "
+                            "every action of its mode; the per-event / per-table reports prove all of them were judged")
+    for en in ("hcpx", "dia"):
+        for e in events.get(en, [])[:1]:
+            ctx.sample(dict(irreps_event=dict(crystal=en, q=[x / 12 for x in e["qv"]], is_little_cogroup=e["cg"], point_group=e["pgs"],
+                                              band_sets=e["bsets"], labels=e["lbl"], characters_2x_over_Zsqrt3=e["chr"][:2])))
